@@ -363,7 +363,24 @@ impl C05 {
         let small: Vec<(&'static str, String)> = self.directed.iter().cloned().filter(|(n, t)| (t.len() < 4096 || n.contains("blanks") || n.contains("lines-")) && !t.contains("zolang ja") && !t.contains("f(n + 1)") && !t.contains("g(n + 1)") && !t.contains("200000") && !t.contains("70000")).filter(|(n, _)| !(dev && n.starts_with("long-run:"))).collect();
         match which {
             0 => {
-                // nederlang <file>
+                // nederlang <file>: files that are not text (the bytes are not UTF-8)
+                for (name, bytes) in RAW_INPUTS {
+                    let p = format!("{}/c05-raw-{}-{}.nl", dir, std::process::id(), name);
+                    let _ = std::fs::write(&p, bytes);
+                    let out = Self::limited(bin, &[&p], 5).stdin(Stdio::null()).output();
+                    let _ = std::fs::remove_file(&p);
+                    st.evaluations += 1;
+                    st.count(&format!("binary:{}raw-byte-file-runs", tag));
+                    if let Ok(o) = out {
+                        if let Some(how) = Self::ending(&o) {
+                            if how == "watchdog" {
+                                st.inconclusive(format!("`nederlang <file>` ({}) did not finish within the watchdog", name));
+                            } else {
+                                st.violation(&format!("binary-{}file:{}:{}", tag, name, how), format!("`nederlang <file>` ended with {:?}; stderr: {}", o.status, crate::obs::clip(&String::from_utf8_lossy(&o.stderr), 300)), &format!("{:?}", String::from_utf8_lossy(bytes)));
+                            }
+                        }
+                    }
+                }
                 for (name, text) in &small {
                     let p = format!("{}/c05-{}-{}.nl", dir, std::process::id(), name);
                     let _ = std::fs::write(&p, text);
@@ -382,6 +399,32 @@ impl C05 {
                 }
             }
             1 => {
+                // the prompt: lines that are not text, then an ordinary line, then EOF
+                for (name, bytes) in RAW_INPUTS {
+                    let child = Self::limited(bin, &[], 5).stdin(Stdio::piped()).stdout(Stdio::piped()).stderr(Stdio::piped()).spawn();
+                    let mut child = match child {
+                        Ok(c) => c,
+                        Err(_) => continue,
+                    };
+                    if let Some(mut i) = child.stdin.take() {
+                        let _ = i.write_all(bytes);
+                        let _ = i.write_all(b"\n40 + 2\n");
+                    }
+                    st.evaluations += 1;
+                    st.count(&format!("binary:{}raw-byte-prompt-runs", tag));
+                    if let Ok(o) = child.wait_with_output() {
+                        match Self::ending(&o) {
+                            Some(how) if how == "watchdog" => st.inconclusive("the prompt did not finish within the watchdog".to_string()),
+                            Some(how) => st.violation(&format!("binary-{}prompt:{}:{}", tag, name, how), format!("the prompt ended with {:?}; stderr: {}", o.status, crate::obs::clip(&String::from_utf8_lossy(&o.stderr), 300)), &format!("{:?}", String::from_utf8_lossy(bytes))),
+                            None => {
+                                // and it went on with the next line
+                                if !String::from_utf8_lossy(&o.stdout).contains("42") {
+                                    st.violation(&format!("binary-{}prompt:{}:next-line-not-evaluated", tag, name), format!("after the line that is not text the prompt did not evaluate `40 + 2`: stdout {:?}", crate::obs::clip(&String::from_utf8_lossy(&o.stdout), 200)), &format!("{:?}", String::from_utf8_lossy(bytes)));
+                                }
+                            }
+                        }
+                    }
+                }
                 // the prompt, one process per input line, then EOF
                 for (k, (name, text)) in small.iter().enumerate() {
                     let _ = name;
@@ -427,6 +470,20 @@ impl C05 {
         }
     }
 }
+
+/// inputs that are not text: byte sequences that are not UTF-8
+const RAW_INPUTS: &[(&str, &[u8])] = &[
+    ("invalid-utf8-in-a-comment", b"1 // \xff"),
+    ("invalid-utf8-in-a-string", b"\"a\xffb\""),
+    ("invalid-utf8-alone", b"\xff"),
+    ("invalid-utf8-in-an-identifier", b"stel caf\xe9 = 1; caf\xe9"),
+    ("truncated-multi-byte-character-at-the-end", b"\"caf\xc3"),
+    ("overlong-encoding", b"1 \xc0\xaf 2"),
+    ("utf16-with-byte-order-mark", b"\xff\xfe1\x00+\x001\x00"),
+    ("encoded-surrogate", b"\"\xed\xa0\x80\""),
+    ("beyond-the-last-code-point", b"\"\xf4\x90\x80\x80\""),
+    ("continuation-byte-alone", b"stel a = 1 \x80 + 1"),
+];
 
 impl Check for C05 {
     fn id(&self) -> &'static str {
